@@ -361,6 +361,9 @@ Definition n_tensor_product (f1 f2 : bsp) : bsp :=
            (fun idx => n_W f1 (split1 f1 idx) * n_W f2 (split2 f1 idx)) (wcomp f2 + wcomp f1).
 
 Definition b_cylinderize (f : bsp) (z0 z1 s0 s1 : Qc) : bsp := b_tensor_product (b_line z0 z1 s0 s1) f.
+(* the documented defaults: cylinderize(self, z0=0.0, z1=1.0, support=(0.0, 1.0)) *)
+Definition b_cylinderize_default_support (f : bsp) (z0 z1 : Qc) : bsp := b_cylinderize f z0 z1 0 1.
+Definition b_cylinderize_defaults (f : bsp) : bsp := b_cylinderize f 0 1 0 1.
 
 (* ------------------------------------------------------------------ *)
 (* arrays from flat data (C order), used by the correspondence run     *)
